@@ -491,14 +491,18 @@ class DocSync:
                     logger.more("Skipped keys: {}".format(", ".join(skipped)))
 
 
-def _ignore_excluded(exclude, keep=()):
-    """Return a shutil.copytree ignore function for the given exclude patterns."""
+def _ignore_excluded(exclude, keep=(), top=None):
+    """Return a shutil.copytree ignore function for the given exclude patterns.
+
+    The names in keep are never ignored directly in the directory top.
+    """
 
     def ignore(path, names):
+        kept = keep if top is not None and os.path.samefile(path, top) else ()
         return [
             name
             for name in names
-            if name not in keep and exclude and any(re.match(p, name) for p in exclude)
+            if name not in kept and exclude and any(re.match(p, name) for p in exclude)
         ]
 
     return ignore
@@ -904,7 +908,9 @@ def sync_projects(
             else:
                 patterns = list(exclude) if isinstance(exclude, list) else [exclude]
             ignore = _ignore_excluded(
-                patterns, keep=(src_job.FN_STATE_POINT, src_job.FN_DOCUMENT)
+                patterns,
+                keep=(src_job.FN_STATE_POINT, src_job.FN_DOCUMENT),
+                top=src_job.path,
             )
             destination.clone(src_job, copytree=partial(proxy.copytree, ignore=ignore))
             logger.more(f"Cloned job '{src_job}'.")
